@@ -59,8 +59,9 @@ def parse_findings(prop: str):
     return res
 
 
-def worker_env(sub: SubCheck) -> dict:
+def worker_env(sub: SubCheck, prop: str = "") -> dict:
     e = dict(os.environ)
+    e["VERIF_KNOWN_KEYS"] = dumps(sorted(parse_findings(prop))) if prop else "[]"
     e["PYTHONHASHSEED"] = "0"
     e["PYTHONPATH"] = VERIF + os.pathsep + env.REPO
     e["PYPDE_REPO"] = env.REPO
@@ -136,7 +137,7 @@ def run_property(prop: str, tier: str, seed: int, replay: str | None = None,
             sub = job[0]
             logf = open(job[3] + ".log", "w")
             p = subprocess.Popen([PY, "-m", "vlib.worker"] + job[2], cwd=VERIF,
-                                 env=worker_env(sub), stdout=logf, stderr=subprocess.STDOUT)
+                                 env=worker_env(sub, prop), stdout=logf, stderr=subprocess.STDOUT)
             running.append((p, job, logf))
             procs_used += max(1, sub.threads)
         time.sleep(0.05)
